@@ -3,4 +3,6 @@ import PsModel.Util.Hex
 import PsModel.Props.C01
 import PsModel.Props.C02
 import PsModel.Props.C03
+import PsModel.Props.C17
 import PsModel.Props.C19
+import PsModel.Props.C20
